@@ -309,7 +309,7 @@ def run(ctx):
         ctx.broken.append("coq: Model/AvbcObs.vo does not build (tie cannot be evaluated)")
         ctx.log(out[-2000:])
     ctx.log("cli sample")
-    cli_sample(ctx, progs, clean, wd, 4 if quick else 25)
+    cli_sample(ctx, progs, clean, wd, 24 if quick else 150)
     ctx.cov["input_distribution"] = (
         "codec: Functions compiled from the program stream at (-O0, -O2, -O2 stripped), seeded hand-built Functions (0-3 levels of "
         "nesting, all 7 constant kinds incl. dangling and aliasing pointers, opcodes 77/78/104 with random cache words, call opcode as "
